@@ -207,6 +207,59 @@ def r16_5(chk):
     chk.analysed['functions scanned by the loop-scope rule'] = nfun
 
 
+def r16_8(chk):
+    """isotropic input path of the general models: ConeCyl._rebuild builds the laminate matrix from (E11, nu, h);
+    it has to be the isotropic plate matrix, the one the iso_ kernels hard-code (R16.2) and the one a single
+    isotropic ply gives (C01)"""
+    m = module(CONECYL)
+    fn = m.method('ConeCyl', '_rebuild')
+    blk = [n for n in ast.walk(fn) if isinstance(n, ast.If) and norm(n.test) == 'self.laminapropisNone']
+    chk.need(blk, 'ConeCyl._rebuild: branch building F from (E11, nu, h) not found')
+    env = {}
+    Fnode = None
+
+    def leaf(n):
+        return P.sym(norm(n))
+    for st in blk[0].body:
+        if isinstance(st, ast.Assign) and len(st.targets) == 1 and isinstance(st.targets[0], ast.Name):
+            try:
+                env[st.targets[0].id] = from_ast(st.value, env, leaf, ring=Rat)
+            except (Unsupported, NonMonomialDivision) as e:
+                env.pop(st.targets[0].id, None)
+        elif isinstance(st, ast.Assign) and norm(st.targets[0]) == 'self.F' and isinstance(st.value, ast.Call) and st.value.args and isinstance(st.value.args[0], ast.List):
+            Fnode = st
+    chk.need(Fnode is not None, 'ConeCyl._rebuild: self.F = np.array([[...]]) not found in the isotropic branch')
+    E, nu, h = Rat(S('self.E11')), Rat(S('self.nu')), Rat(S('self.h'))
+    one = Rat(C(1))
+    a = E * h / (one - nu * nu)
+    A = [[a, nu * a, 0], [nu * a, a, 0], [0, 0, a * (one - nu) / Rat(C(2))]]
+    n = 0
+    rows = Fnode.value.args[0].elts
+    chk.need(len(rows) == 6 and all(isinstance(r, ast.List) and len(r.elts) == 6 for r in rows), 'ConeCyl._rebuild: F is not written as a 6x6 list')
+    for i in range(6):
+        for j in range(6):
+            if (i < 3) != (j < 3):
+                want = Rat(P())
+            else:
+                w = A[i % 3][j % 3]
+                want = Rat.lift(w) if not isinstance(w, int) else Rat(P())
+                if i >= 3:
+                    want = want * h * h / Rat(C(12))
+            try:
+                got = from_ast(rows[i].elts[j], env, leaf, ring=Rat)
+                ok = got.equals(want)
+                gtxt = norm(rows[i].elts[j])
+            except (Unsupported, NonMonomialDivision) as e:
+                ok, gtxt = False, 'not decidable: %s' % e
+            n += 1
+            chk.ob('R16.8', ok, CONECYL, 'ConeCyl._rebuild', 'isotropic laminate matrix entry F[%d,%d]' % (i, j), line=rows[i].lineno,
+                   expected='E h/(1-nu^2) [[1,nu,0],[nu,1,0],[0,0,(1-nu)/2]] for the membrane block, h^2/12 times it for the bending block, no coupling',
+                   got='%s with %s' % (gtxt, {k: norm(v) for k, v in ((t.targets[0].id, t.value) for t in blk[0].body if isinstance(t, ast.Assign) and isinstance(t.targets[0], ast.Name)) if k == gtxt}),
+                   detail='' if ok else 'a general model driven with (E11, nu, h) no longer equals the iso_ model or the same model fed a one-ply isotropic laminate',
+                   sample='ConeCyl._rebuild: F[%d,%d] = %s' % (i, j, gtxt) if (i, j) in ((0, 0), (0, 1), (2, 2), (3, 4), (5, 5)) else None)
+    chk.floor('R16.8 entries', n, 36)
+
+
 def run(chk):
     chk.level = LEVEL
     chk.trusted = ['python3 ast', 'E1 lowering', 'Fraction polynomial arithmetic (poly.P)', 'product-to-sum and closed antiderivatives of x^p sin/cos(w x) (shellenergy)', 'C01 (A, B, D symmetric; transverse-shear block uncoupled)']
@@ -217,6 +270,7 @@ def run(chk):
     r16_1(chk)
     r16_3(chk)
     r16_5(chk)
+    r16_8(chk)
     from . import c16iso, c16deep
     c16iso.r16_2(chk)
     c16deep.run(chk)
